@@ -23,7 +23,13 @@ impl SrDev {
     pub fn build(&self) -> SurfaceDeviationSet2 {
         let mut s = if self.via_new { SurfaceDeviationSet2::new(self.init.iter().enumerate().map(|(i, d)| dev(i, *d)).collect()) } else { SurfaceDeviationSet2::default() };
         for (k, d) in self.pushes.iter().enumerate() {
-            s.push(dev(self.init.len() + k, *d));
+            // both spellings of a push, alternating
+            if k % 2 == 0 {
+                s.push(dev(self.init.len() + k, *d));
+            } else {
+                let x = dev(self.init.len() + k, *d);
+                s.push_new(x.surface, x.deviation);
+            }
         }
         s
     }
